@@ -1,17 +1,19 @@
 """C08 - certificate name and fingerprint matching accept exactly what the rules allow.
 
-stage 1  TLC proves MATCHER |= RULES (spec/HostMatch.tla) on three machines: every (entry, host) pair over
-         the label alphabet, SAN lists of typed entries x CN x switch x api, pins under perturbation.  The
-         list machine runs twice: KnownDefects = {} (the design the statement asks for: all clauses hold)
-         and KnownDefects = {"ABORT"} (the code as it is: ListAcceptsStrict is EXPECTED to fail and
-         ListAcceptsStrictExceptAbort shows the deviation is exactly the recorded input class).
-stage 2  TLC emits, per entry, the must-accept / either host sets (sparse); per SAN list every case that is
-         not must-reject; every perturbed pin with its verdict.
+stage 1  TLC (spec/HostMatch.tla, MC_HostMatch.tla) on three machines - every (entry, host) pair over the label
+         alphabet, SAN lists of typed entries x CN x switch x api, pins under perturbation - checks that the
+         repaired MATCHER (no deviation) satisfies RULES and that the code-shaped MATCHER (KnownDefects = D13
+         "ABORT", D14 "ACECASE") leaves RULES exactly on the recorded input classes; three further runs show that
+         the code-shaped MATCHER really breaks ListAcceptsStrict / ListRejectsForbidden / PairMatcherRejectsForbidden.
+stage 2  TLC emits, per entry, the must-accept / either host sets (sparse) and the hosts MATCHER accepts; per SAN
+         list every case that is not must-reject; every perturbed pin with its verdict; the reject clauses used.
 stage 3  everything in the enumerated domains is replayed into the real match_hostname /
-         connection._match_hostname / assert_fingerprint and compared with the emitted values.
+         connection._match_hostname / assert_fingerprint and compared with the emitted values (disagreement with
+         a must class = violation, disagreement with MATCHER inside Either = drift).
 stage 4  the verdicts of the real code (accepted host sets, list cases, concrete pins with hashlib digests,
          plus seeded random lists and pins beyond the exhaustive bound) go back to TLC as trace batches and
-         are judged by spec/HostMatch_Trace.tla with the same RULES operators (the hard verdict).
+         are judged by spec/HostMatch_Trace.tla with the same RULES operators (the hard verdict, clause named
+         by TLC; the suffix after "/" is the recorded input class when a deviation action explains the verdict).
 """
 from __future__ import annotations
 
@@ -216,15 +218,23 @@ def judge(doc, labels="MCLabels5", ml=1):
         return [], {}
     r = tlc.run("HostMatch_Trace", TRACE_CFG.format(labels=TRLABELS[labels], ml=ml), workers=1,
                 files={"traces.json": json.dumps(doc)}, env={"TRACE_FILE": "traces.json"}, timeout=7200)
-    done = {t[0]: t[1:] for t in tlc.tagged_tuples(r.out, "DONE")}
-    if len(done) != len(doc["traces"]) or r.distinct != len(doc["traces"]) + 1:
+    done, bad = {}, []
+    for ln in r.out.splitlines():
+        if ln.startswith('"DONE|') and ln.endswith('"'):
+            f = ln[1:-1].split("|")
+            done[int(f[1])] = tuple(int(x) for x in f[2:])
+        elif ln.startswith('"VERDICT|') and ln.endswith('"'):
+            f = ln[1:-1].split("|")
+            if len(f) != 5:
+                raise tlc.MachineryError(f"unparsable VERDICT line {ln}")
+            bad.append((int(f[1]), int(f[2]), f[3], f[4]))
+    if len(done) != len(doc["traces"]) or r.distinct != len(doc["traces"]) + 1 or any(len(d) != 5 for d in done.values()):
         raise tlc.MachineryError(f"trace judgement: {len(done)} DONE lines / {r.distinct} states for "
                                  f"{len(doc['traces'])} traces\n{r.out[-2000:]}")
-    bad = [t for t in tlc.tagged_tuples(r.out, "VERDICT")]
-    for b in bad:
-        if len(b) != 4:
-            raise tlc.MachineryError(f"unparsable VERDICT line {b}")
-    return bad, done
+    if sum(d[4] for d in done.values()) != len(bad) or "VERDICT" in r.out.replace('"VERDICT|', ""):
+        raise tlc.MachineryError(f"trace judgement: TLC reports {sum(d[4] for d in done.values())} failing cases, "
+                                 f"{len(bad)} VERDICT lines were read\n{r.out[-2000:]}")
+    return bad, {k: d[:4] for k, d in done.items()}
 
 
 # ----------------------------------------------------------------------------------------- pairs
@@ -759,6 +769,7 @@ def run(rep):
                 raise tlc.MachineryError(f"FpSpec explored {r.distinct} pins, emission {fp_emitted}")
         rep.extra["stage1_pairs_checked"] = pairs_checked
         tick("stage1")
+        pseen = set()
         for plan, fs in zip(pplans, pair_f):
             outs = [f.get() for f in fs]
             n = len(domain(plan["labels"], plan["ml"]))
@@ -768,15 +779,15 @@ def run(rep):
                 raise tlc.MachineryError("pair replay incomplete")
             if not sum(o["must"] for o in outs) or not sum(o["either"] for o in outs):
                 raise tlc.MachineryError("vacuous pair reference (no must-accept / either member)")
-            seen = {c for o in outs for c in o["rc"]}
-            if not PAIR_CLAUSES <= seen:
-                raise tlc.MachineryError(f"pair reference never uses the clauses {sorted(PAIR_CLAUSES - seen)}")
-            rep.extra["pair_reject_clauses_exercised"] = sorted(seen - {"none"})
+            pseen.update(c for o in outs for c in o["rc"])
             for o in outs:
                 absorb(o, "pairs")
                 add_tally("pairs", o["tally"])
                 for s in o["samples"]:
                     rep.sample(s, cap=2)
+        if not PAIR_CLAUSES <= pseen:
+            raise tlc.MachineryError(f"pair reference never uses the clauses {sorted(PAIR_CLAUSES - pseen)}")
+        rep.extra["pair_reject_clauses_exercised"] = sorted(pseen - {"none"})
         tick("pairs")
         outs = [f.get() for f in list_f]
         if sum(o["lists"] for o in outs) != len(recs):
